@@ -43,7 +43,7 @@ def brew_cases(ctx, rng):
         thr = [[1, 2], [1, 4]][(j // 6) % 2]
         cases.append({"files": [{"rows": rows}], "folds": folds, "workers": 1 + j % 2, "cap": None, "keyw": 2,
                       "fmt": "parquet" if (j // 12) % 2 else "pin", "thr": thr, "train_thr": thr, "seed": j,
-                      "est": ["feat", "const", "anti"][j % 3], "col": 1, "direction": None,
+                      "est": ["feat", "const", "anti", "proba"][j % 4], "col": 1, "direction": "f1" if (j // 4) % 3 == 2 else None,
                       "label_enc": ["1/-1", "1/0", "bool"][(j // 24) % 3], "override": bool((j // 72) % 4 == 3),
                       "lower_better": lower_better, "max_iter": 1 + j % 2})
         if j % 8 == 7:      # a second collection
@@ -79,7 +79,8 @@ def run_brew_case(case):
             for r, x, rk in zip(fl["rows"], v.tolist(), dense.tolist()):
                 fr = brewrun.frac(x, 10 ** 6)
                 scores.append({"id": r["id"], "num": fr[0], "den": fr[1], "ok": fr[2], "nan": fr[3], "rank": int(rk) + 1})
-    return {"thr": list(c["thr"]), "override": bool(c.get("override", False)), "nfiles": len(c["files"]),
+    return {"fits": tr["fits"], "train_thr": list(c.get("train_thr", c["thr"])), "direction": c.get("direction") or "",
+            "thr": list(c["thr"]), "override": bool(c.get("override", False)), "nfiles": len(c["files"]),
             "featnames": ["f1", "f2"], "rows": rows, "models": models, "raised": tr["raised"], "raised_type": tr["raised_type"],
             "calib_error": "Failed to calibrate scores" in tr["raised"], "descs": descs, "scores": scores}
 
